@@ -163,12 +163,12 @@ pub fn run(run: &RunInfo, c03: bool) -> Summary {
     let distinct = acc.set_len("values");
     let (rule, required) = if c03 {
         (
-            format!("55 shipped types x all canonical values with <= {k} deviating fields (5.2 alphabets) + all-present rows + sizing rows (every variable-length leaf sized 0..=300 and to 19 larger sizes around 512, 768, 1000, 1280, 4096, 32768, 65280); each value: reference bytes -> real decoder must give exactly the named fields, real encoder must give the identical bytes. distinct_nontrivial = distinct (type, reference bytes) pairs"),
+            format!("55 shipped types x all canonical values with <= {k} deviating fields (5.2 alphabets) + all-present rows + rows with 4..1000 items in every repeated field + sizing rows (every variable-length leaf sized 0..=300 and to 19 larger sizes around 512, 768, 1000, 1280, 4096, 32768, 65280); each value: reference bytes -> real decoder must give exactly the named fields, real encoder must give the identical bytes. distinct_nontrivial = distinct (type, reference bytes) pairs"),
             vec!["every field of every type is non-baseline in some canonical value".to_string(), "extended APDU length header used".to_string()],
         )
     } else {
         (
-            format!("55 shipped types x all canonical values with <= {k} deviating fields (5.2 alphabets) + all-present rows + sizing rows; each value is constructed natively, serialised and deserialised by the real code and compared with the type's own PartialEq. distinct_nontrivial = distinct (type, reference bytes) pairs"),
+            format!("55 shipped types x all canonical values with <= {k} deviating fields (5.2 alphabets) + all-present rows + rows with 4..1000 items in every repeated field + sizing rows; each value is constructed natively, serialised and deserialised by the real code and compared with the type's own PartialEq. distinct_nontrivial = distinct (type, reference bytes) pairs"),
             vec!["every field of every type is non-baseline in some canonical value".to_string(), "extended APDU length header used".to_string()],
         )
     };
